@@ -93,6 +93,7 @@ def corpus_cases():
 
 def run(tier, seed):
     R = C.Report(CID, tier, seed)
+    PS.drop_stale_known(R, PS.MY_PROPS)
     rng = C.rng_for(seed, CID)
     n = 20000 if tier == 'quick' else 600000
 
@@ -110,18 +111,21 @@ def run(tier, seed):
             R.notes.append(f'finding for {fl} no longer reproduces; model run with the repaired configuration')
     drop = not cfg['f_mv_keep_subst']
 
-    # corpus (refutation witnesses, minimised failures) first, then generated cases
-    cases = corpus_cases()
-    ncorp = len(cases)
+    # corpus (refutation witnesses, minimised failures) first, then generated cases (in batches)
     budget = n if not proof_broken else 3 * n
-    cases += gen_cases(rng, sides, budget, drop)
-    for c in cases[ncorp:ncorp + 6]:
-        R.sample(f'{c.op} {c.args[:160]}')
-    mismatches, failing = PS.check_cases(R, sides, cases, cfg, CID, sigfun)
-    if mismatches and not failing:
+    grng = rng
+
+    def gen_fn(k):
+        cs = gen_cases(grng, sides, k, drop)
+        for c in cs[:6]:
+            R.sample(f'{c.op} {c.args[:160]}')
+        return cs
+    mismatches, nfail, nmis = PS.check_in_batches(R, sides, cfg, CID, corpus_cases(), gen_fn, budget, sigfun=sigfun)
+    if mismatches and not nfail:
         # the model no longer describes the code: widen the oracle search before giving up
-        more = gen_cases(C.rng_for(seed, CID + ':search'), sides, 4 * n, drop)
-        _, failing = PS.check_cases(R, sides, more, cfg, CID, sigfun)
+        grng = C.rng_for(seed, CID + ':search')
+        _, nfail, _ = PS.check_in_batches(R, sides, cfg, CID, [], gen_fn, 4 * n, sigfun=sigfun)
+    failing = [None] * nfail
 
     if proof_broken and not R.violations:
         R.violation('proof-broken', 'Coq proof stage failed',
@@ -132,7 +136,7 @@ def run(tier, seed):
                      'theorem_or_correspondence': 'correspondence mlref_py vs proof_generation.pattern '
                                                   f'(configuration {PS.flagstr(cfg)})',
                      'first_mismatches': mismatches[:5]})
-    R.notes.append({'tie_mismatches': len(mismatches), 'oracle_failures': len(failing)})
+    R.notes.append({'tie_mismatches': nmis, 'oracle_failures': nfail})
     R.coverage['rule'] = ('random generator-side patterns (depth 1-4; shipped + generated notations nested, partial '
                           'Instantiates, constrained metavariables, stacked substitutions) with operation arguments; '
                           'distinct = distinct (operation, arguments); non-trivial = an Instantiate is involved '
